@@ -66,3 +66,22 @@ def run(ctx, R):
             if n.get("k") == "if" and any((c.get("callee") or "").endswith("operand_types_valid") for c in calls_in(n["cond"])):
                 ok = any(x.get("k") == "ctor" and x.get("variant") == "Err" for x in walk(n["then"]))
     R.check(ok, "r2", "G-OPTYPES", C.loc(mf["sp"]) if mf else "-", "make_filter_expr must validate operand types and return the errors")
+
+    # r3: semantic discharge of the comparison functions' own panic sites (the audit lists their `unreachable!` as guarded by
+    # the operand-type validation): evaluated on every operand pair the frontend admits - same scalar type, mixed integer
+    # representation, null on either side (a tag of a nullable property can be null) - they must not reach a panic
+    R.rule("r3", "the functions executing =, <, <=, >, >= never reach a panic on operand pairs the frontend admits (C07 r6's tables)")
+    from . import C07
+    R7 = Report("C07", ctx.tier, 0)
+    C07.run(ctx, R7)
+    pan = R7.extra.get("r6_panics")
+    if not pan:
+        R.fail("r3", "anchor:operator-tables", "-", "C07's operator decision tables are not available (fail closed)")
+    else:
+        R.floor("r3", "operators with a decision table", len(pan), 5)
+        for opname, lst in sorted(pan.items()):
+            ex = lst[0] if lst else None
+            R.check(not lst, "r3", "operator-never-panics/%s" % opname, "-",
+                    "the function executing the `%s` filter reaches %s for the operands (%s, %s); the frontend admits this pair, so "
+                    "executing an accepted query panics (%d such pairs)" % (opname, ex and ex[2], ex and ex[0], ex and ex[1], len(lst)),
+                    {"pairs_evaluated": R7.extra.get("r6_pairs", {}).get(opname)})
